@@ -7,6 +7,7 @@ NOTE = ("Trusted base: symnp's model of the NumPy surface (symnp/proxy.py), the 
         "(rounding/overflow/NaN propagation not modelled). Claim per obligation: for all real inputs in the harness domain, on every "
         "explored path; undecided obligations are listed in the evidence and not claimed.")
 CHECKS = {
+ 'C12': "Both slerp copies are executed on a parametrisation of all unit pairs (p, d p + sqrt(1-d^2) e) with weights from a rational grid; unit norm, end points, sign symmetry and p.out = cos(t theta0) (the code's own arccos atom at granularity 12) are decided by the solver (algebraic certificates checked by z3); the minor-arc inequalities are attempted. slerp_nan is executed for every interior NaN mask up to N=5 (quick: three masks) against slerp of the neighbours; remove_jumps / q_correct for every sign pattern up to N=4 rows.",
  'C18': "The seven metrics are executed on symbolic unit quaternions / rotation matrices and their results compared by the solver with the closed forms in d = p.q (8(1-d^2), 2(1-|d|), 1-|d|, arccos|d|, arccos(2d^2-1)); non-negativity, zero set, symmetry and sign invariance are decided on the real code, left/right invariance by the certified lemma (sp).(sq) = p.q plus the closed forms; the allclose shortcuts are branch sides the solver must refute. Quick tier: restricted pair domain (stated in the evidence); thorough: relative angles down to 1e-4 and angular_distance.",
  'C17': "ECEF<->ENU (both directions, rigidity, origin), ENU<->AER, ENU<->DCA, NED<->ENU and the llf/ecef rotation matrices are executed on symbolic latitudes/longitudes/angles (degree-valued angle atoms) and symbolic offsets; the round trips are trig-polynomial identities decided by the solver. The geodetic<->ECEF round trip through the iterative ecef2geodetic is attempted in the thorough tier only and is not claimed.",
  'C10': "Round trips rpy<->quaternion (single, array, free functions, degrees), axis-angle<->quaternion and <->matrix, exp(log q), powers, DCM.log and every Euler-sequence constructor are executed on symbolic angle atoms (one (cos,sin) pair per atom; inverse-trig results compared by cross-multiplication) and compared with the input angles / ordered products of elementary rotations for all angles in the stated ranges.",
